@@ -228,6 +228,33 @@ def a3(run, tu):
     run.ob('A3/function-row-carries-both-siblings', 'Recompiler._generate_cpy_function_ctx', 'GlobalExpr(%s)' % ', '.join(ga), okg, m.where(ge[0]))
 
 
+def a4(run, tu):
+    """struct-by-value arguments on the libffi path: the element list libffi gets has one entry per scalar, so an array
+    member of shape [a][b]... contributes a*b*... entries -- in the pass that counts them and in the pass that writes them"""
+    from ..cast import absint
+    from ..cast.absint import Con
+    from ..cast.cfg import cfg_of as _cfg
+    F = 'fb_fill_type'
+    g = _cfg(tu, F)
+    arr = rules.macro_flags(tu, 'CT_')['CT_ARRAY']
+    loops = [n for n in g.nodes if n.kind == 'cond' and re.match(r'^(\w+)->ct_flags & %d$' % arr, cx.render(n.ast))]
+    run.need(len(loops) == 2, '%s: expected the counting and the filling loop over nested array types, found %d' % (F, len(loops)))
+    for n in loops:
+        var = re.match(r'^(\w+)->ct_flags', cx.render(n.ast)).group(1)
+        body = [t for t, l in n.succ if l == 'T'][0]
+        res = {}
+        for flat0, ln in ((1, 5), (3, 5), (6, 4), (1, 1)):
+            env = {'flat': Con(flat0, 64, True), '%s->ct_length' % var: Con(ln, 64, True)}
+            it = absint.Interp(g, env, {}, const_vars={'%s->ct_length' % var})
+            it.run_from(body, env, {n.id})
+            st = it.in_state.get(n.id) or {}
+            v = st.get('flat')
+            res[(flat0, ln)] = v.v if isinstance(v, Con) else None
+        ok = all(res[k] == k[0] * k[1] for k in res)
+        run.ob('A4/nested-array-members-flattened-to-the-product-of-their-lengths', F, 'while (%s is an array) flat *= length  [%s pass]' % (var, 'counting' if n is max(loops, key=lambda x: x.id) else 'filling'),
+               ok, tu.where(n.ast), 'one iteration maps (flat, length) -> flat as %s; expected the product' % sorted(res.items()))
+
+
 def check(run):
     thorough = run.tier == 'thorough'
     run.technique = ('sibling cross-check: symbolic walk of the wrapper generator template (Python ast, abstract function types), clang-AST '
@@ -236,8 +263,9 @@ def check(run):
     a1(run)
     a2(run, thorough)
     a3(run, backend_tu())
+    a4(run, backend_tu())
     run.assume('decided: that the API-mode attribute and the addressof/libffi path reach the same C function with the same argument order, '
                'types and type-table entry; conversions are C03 R5-R7, errno C22, ABI table equivalence C11; not decided: libffi itself, '
-               'struct-by-value classification in fb_build, equality of outcomes on concrete argument tuples')
-    for rule, k in (('A1', 20), ('A2/row-pairs-the-siblings-of-its-own-name', 25), ('A2/siblings-call-the-same-function-with-arguments-in-order', 25), ('A3', 8)):
+               'which structs may be passed by value (fb_unsupported), but the flattening of array members is (A4); equality of outcomes on concrete argument tuples')
+    for rule, k in (('A1', 20), ('A2/row-pairs-the-siblings-of-its-own-name', 25), ('A2/siblings-call-the-same-function-with-arguments-in-order', 25), ('A3', 8), ('A4', 2)):
         run.min_instances(rule, k)
